@@ -9,6 +9,7 @@ import Driver.SM3
 import Driver.SM4Modes
 import Driver.Padding
 import Driver.Record
+import Driver.X509
 open Gmsm
 
 def dispatch (toks : List String) : String :=
@@ -27,6 +28,7 @@ def dispatch (toks : List String) : String :=
     | "recwrite" :: rest => Driver.recwrite rest
     | "recread" :: rest => Driver.recread rest
     | "expad" :: rest => Driver.expad rest
+    | "chain" :: rest => Driver.chain rest
     | _ => "bad-op"
 
 def main : IO Unit := Driver.run dispatch
